@@ -35,7 +35,7 @@ RULE = ('CSV files generated from one PRNG: 3-4 columns (label anywhere, a uniqu
         'k*B + {-1,0,1,1023,1024,1025,1026} for B in [1030,2600] (tail rule can fire) and B in {1,2,5,50} (many batches), '
         'subsampling in {1,2,3,7} with unselected filler lines (valid or malformed), malformed selected rows (too few / too many '
         'fields, empty lines) at rates 0-40% and forced at the first/last/boundary positions, with and without trailing newline; '
-        'both ranking modes; a few Constant-heuristic files; direct get_grouped_df cases with ties, negative and even/odd groups. '
+        'both ranking modes; a few Constant-heuristic files; direct get_grouped_df cases with ties, negative and even/odd groups, and with NaN scores (accepted: NaN-skipping or NaN-propagating median per pair). '
         'Non-trivial = at least two processed batches or a fired tail rule, with at least one malformed selected row; '
         'distinct = distinct (B, sub, validity pattern). ' + corr_E2E.RULE_E2E)
 ASSUMPTIONS = ['lines are abstract in the model: per line only "csv field count == header field count" (computed by the harness as '
@@ -416,6 +416,64 @@ def grouped_direct(ctx: Ctx, n, oracle_only=False):
             ctx.traces += 1
 
 
+def grouped_direct_nan(ctx: Ctx, n, oracle_only=False, given=None):
+    """per-batch scores that are NaN (a heuristic undefined on a batch, e.g. Pearson on a constant column).  "The median of its
+    per-batch scores" has two conventional readings then: NaN scores are skipped (what pandas' groupby median and the unchanged
+    code do; NaN only when every score of the pair is NaN) or NaN propagates.  The oracle accepts either, for every pair, and
+    nothing else; the correspondence pins the code to the first reading (the model run on the non-NaN rows)."""
+    import math
+
+    from outrank import core_ranking as cr
+    cases = given if given is not None else []
+    for _ in range(0 if given is not None else n):
+        rows = gen_triplets(ctx.rng)
+        k = ctx.rng.choice([1, 1, 2, len(rows) // 2, len(rows)])
+        for i in ctx.rng.sample(range(len(rows)), min(k, len(rows))):
+            rows[i] = (rows[i][0], rows[i][1], float('nan'))
+        cases.append(rows)
+    if given is None:
+        cases += [[('a', 'b', 0.3), ('a', 'b', float('nan')), ('a', 'b', 0.5)], [('a', 'b', float('nan'))],
+                  [('a', 'b', 1.0), ('a', 'b', float('nan')), ('b', 'a', float('nan')), ('b', 'a', 2.0), ('b', 'a', 4.0), ('b', 'a', float('nan'))]]
+    req, metas = [], []
+    for rows in cases:
+        fin = [r for r in rows if not math.isnan(r[2])]
+        rk, names = sc.name_ranks(rows)
+        metas.append(names)
+        req.append(line(Atom(PROP), Atom('agg'), sc.wire_rows(fin, rk)))
+    rep = run_driver(req)
+    for rows, names, m in zip(cases, metas, rep):
+        stored = {'direct_rows_nan': [[a, b, None if math.isnan(x) else x] for a, b, x in rows]}
+        g = cr.get_grouped_df(list(rows))
+        impl = [(str(a), str(b), float(x)) for a, b, x in zip(g['FeatureA'], g['FeatureB'], g['Score'])]
+        ctx.evaluations += 1
+        ctx.count('get_grouped_df-direct-with-NaN-scores')
+        skip = {(names[a], names[b]): Fraction(x) for a, b, x in m}
+        keys = {(r[0], r[1]) for r in rows}
+        show = f'get_grouped_df({[(a, b, x) for a, b, x in rows][:8]}{"…" if len(rows) > 8 else ""})'
+        got_keys = [(a, b) for a, b, _ in impl]
+        if len(set(got_keys)) != len(got_keys) or not set(skip) <= set(got_keys) <= keys:
+            ctx.oracle_fail('median-nan', f'{show}: pairs in the result {sorted(got_keys)}; scored pairs {sorted(keys)}, of which {sorted(skip)} have a non-NaN score', stored)
+            continue
+        bad = None
+        for a, b, x in impl:
+            want = skip.get((a, b))
+            if math.isnan(x) or (want is not None and sc.same_float(want, x)):
+                continue
+            bad = f'{show}: pair {(a, b)} gets {x!r}; the median of its non-NaN scores is {float(want) if want is not None else "undefined (all NaN)"}'
+            break
+        if bad:
+            ctx.oracle_fail('median-nan', bad + ' (neither the NaN-skipping nor the NaN-propagating median)', stored)
+            continue
+        if not oracle_only:
+            ctx.traces += 1
+            for a, b, x in impl:
+                want = skip.get((a, b))
+                if (want is None) != math.isnan(x):
+                    ctx.corr_fail('nan-convention', f'{show}: pair {(a, b)} gets {x!r}, the model (NaN scores skipped) '
+                                  f'{float(want) if want is not None else "NaN"}', stored)
+                    break
+
+
 # ---------------------------------------------------------------------------------------------
 # end to end through the CLI
 
@@ -447,6 +505,7 @@ def run(ctx: Ctx):
     try:
         evaluate(ctx, cases)
         grouped_direct(ctx, 2000 if th else 300)
+        grouped_direct_nan(ctx, 600 if th else 120)
         # the CLI cases: in-process reference + fresh-process run
         obs = [observe(c) for c in clis]
         for c, (cols, lines, rec), f in zip(clis, obs, futs):
@@ -479,6 +538,7 @@ def search(ctx: Ctx):
     sub.rng.seed(f'search:{ctx.seed}')
     evaluate(sub, [gen_case(sub.rng, True) for _ in range(250)], oracle_only=True)
     grouped_direct(sub, 1500, oracle_only=True)
+    grouped_direct_nan(sub, 600, oracle_only=True)
     corr_E2E.evaluate_e2e(sub, corr_E2E.corpus_e2e() + corr_E2E.corpus_ratio() + [corr_E2E.gen_e2e_case(sub.rng, True) for _ in range(60)]
                           + [corr_E2E.gen_e2e_case(sub.rng, True, ratio=corr_E2E.RATIOS[k % 3]) for k in range(30)], oracle_only=True)
     return sub.oracle_failures
@@ -488,6 +548,9 @@ def replay(ctx: Ctx, payload):
     case = payload['case']
     if isinstance(case, dict) and case.get('e2e'):
         corr_E2E.evaluate_e2e(ctx, [case], do_shrink=False)
+        return
+    if 'direct_rows_nan' in case:
+        grouped_direct_nan(ctx, 0, given=[[(a, b, float('nan') if x is None else x) for a, b, x in case['direct_rows_nan']]])
         return
     if 'direct_rows' in case:
         from outrank import core_ranking as cr
